@@ -76,13 +76,31 @@ type peer struct {
 	onStop    bitcoin_reader.OnStop
 	used      bool // the handler was called or the peer failed
 	cancelled bool
+	slow      bool // CancelBlockRequest takes long (contended peer mutex / blockReader.Close())
+	owner     *state
 }
 
 func (p *peer) ID() uuid.UUID { return p.id }
 func (p *peer) CancelBlockRequest(ctx context.Context, hash bitcoin.Hash32) bool {
 	p.Lock()
-	defer p.Unlock()
 	p.cancelled = true
+	slow := p.slow
+	p.Unlock()
+	if slow {
+		// Stay inside the manager's cancel loop until the finishers of the downloaders cancelled before
+		// this one have removed them from the registry (count unchanged for 3 ms, at most 150 ms): the
+		// deterministic version of "cancelling this peer takes long while others finish".
+		last, same := -1, 0
+		for i := 0; i < 750 && same < 15; i++ {
+			time.Sleep(200 * time.Microsecond)
+			n := p.owner.m.DownloaderCount(hash)
+			if n == last {
+				same++
+			} else {
+				last, same = n, 0
+			}
+		}
+	}
 	return false // handlers run to completion inside an op, so none is in progress at cancel time
 }
 
@@ -106,8 +124,9 @@ type state struct {
 	aborted      []bool
 	panicked     atomic.Bool
 	conc         int
-	expectSig    int // request that must get a signal before the manager is at rest (-1: none)
-	needDrop     int // the registry count of needDropHash must fall to this first (-1: none)
+	slowAll      bool // every peer created from now on is slow to cancel
+	expectSig    int  // request that must get a signal before the manager is at rest (-1: none)
+	needDrop     int  // the registry count of needDropHash must fall to this first (-1: none)
 	needDropHash int
 	// while a block is being delivered the requestor refuses further requests for that hash, so that a
 	// tick racing with the completion cannot consume the scripted budget (the model covers that race)
@@ -123,7 +142,7 @@ func (s *state) RequestBlock(ctx context.Context, hash bitcoin.Hash32, handler b
 		return nil, bitcoin_reader.ErrNodeNotAvailable
 	}
 	s.accept--
-	p := &peer{id: uuid.New(), hash: hash, handler: handler, onStop: onStop}
+	p := &peer{id: uuid.New(), hash: hash, handler: handler, onStop: onStop, owner: s, slow: s.slowAll}
 	s.peers = append(s.peers, p)
 	atomic.AddInt32(&s.accepted, 1)
 	return p, nil
@@ -177,7 +196,30 @@ func (s *state) snapshot() string {
 	if s.runDone.Load() {
 		alive = 0
 	}
-	return fmt.Sprintf("sigs=%s dls=%d alive=%d", s.sigString(), s.dlCount(), alive)
+	return fmt.Sprintf("sigs=%s dls=%d stale=%d alive=%d", s.sigString(), s.dlCount(), s.staleCount(), alive)
+}
+
+// staleCount is the number of registered downloaders whose block is not the one being requested
+// now: downloaders of requests that already got their terminal signal.
+func (s *state) staleCount() int {
+	cur := s.current()
+	s.Lock()
+	hs := append([]int{}, s.reqHash...)
+	curHash := -1
+	if cur >= 0 && !s.runDone.Load() {
+		curHash = s.reqHash[cur]
+	}
+	s.Unlock()
+	seen := map[int]bool{}
+	n := 0
+	for _, k := range hs {
+		if seen[k] || k == curHash {
+			continue
+		}
+		seen[k] = true
+		n += s.m.DownloaderCount(s.blocks[k].hash)
+	}
+	return n
 }
 
 // current returns the index of the oldest request without a terminal signal (-1 if none).
@@ -199,6 +241,7 @@ func (s *state) current() int {
 // still accepts, is about to request (or to give up); downloads of finished requests must drain.
 func (s *state) rest() (string, bool) {
 	deadline := time.Now().Add(8 * time.Second)
+	var undrainedSince time.Time
 	last := ""
 	lastAcc := int32(-1)
 	stable := 0
@@ -266,7 +309,14 @@ func (s *state) rest() (string, bool) {
 			}
 		}
 		if !drained {
-			continue
+			// downloads of finished requests normally drain within milliseconds; after 2 s at an
+			// otherwise resting manager report what is there (stale=N) instead of waiting on
+			if undrainedSince.IsZero() {
+				undrainedSince = time.Now()
+			}
+			if time.Since(undrainedSince) < 2*time.Second {
+				continue
+			}
 		}
 		return snap, true
 	}
@@ -389,6 +439,25 @@ func (s *state) step(op string) string {
 		s.expectSig = int(r)
 		s.Unlock()
 		close(s.aborts[r])
+	case "slow":
+		// d=<i>: peer i becomes slow to cancel; all=1|0: every peer created from now on
+		if v, ok := a["all"]; ok {
+			s.Lock()
+			s.slowAll = v == "1"
+			s.Unlock()
+			break
+		}
+		d, ok := a.Int("d")
+		s.Lock()
+		if !ok || d < 0 || int(d) >= len(s.peers) {
+			ign = " ign=1"
+		} else {
+			p := s.peers[d]
+			p.Lock()
+			p.slow = true
+			p.Unlock()
+		}
+		s.Unlock()
 	case "intr":
 		if !s.intrDone {
 			s.intrDone = true
@@ -582,8 +651,24 @@ func gen(seed uint64, n int, tier string) {
 			fmt.Printf("init conc=%d\npolicy accept=%d\nadd h=1\ndeliver d=%d\nadd h=2\nend\n", conc, conc, o[0])
 		}
 	}
+	// cancel loops racing with finishers: 3..5 downloaders of one block, one peer slow to cancel, the
+	// request aborted or completed by each of the other downloaders; then the next request starts
+	for conc := 3; conc <= 5; conc++ {
+		for slow := 0; slow < conc; slow++ {
+			fmt.Printf("init conc=%d\npolicy accept=%d\nadd h=1\nslow d=%d\nabort r=0\nadd h=2\nend\n", conc, conc, slow)
+			for d := 0; d < conc; d++ {
+				if d == slow || (tier == "quick" && conc == 5 && (d+slow)%2 == 1) {
+					continue
+				}
+				fmt.Printf("init conc=%d\npolicy accept=%d\nadd h=1\nslow d=%d\ndeliver d=%d\nadd h=2\nend\n", conc, conc+1, slow, d)
+			}
+		}
+		// every peer slow
+		fmt.Printf("init conc=%d\nslow all=1\npolicy accept=%d\nadd h=1\nabort r=0\nadd h=2\nend\n", conc, conc+2)
+		fmt.Printf("init conc=%d\nslow all=1\npolicy accept=%d\nadd h=1\nfail d=0 kind=stop\ndeliver d=%d\nadd h=2\nend\n", conc, conc+3, conc-1)
+	}
 	for k := 0; k < n; k++ {
-		conc := r.Intn(5) // 0 included: the first request is unconditional
+		conc := r.Intn(6) // 0 included: the first request is unconditional
 		fmt.Printf("init conc=%d\n", conc)
 		nops := 5 + r.Intn(9)
 		if tier == "thorough" {
@@ -597,7 +682,13 @@ func gen(seed uint64, n int, tier string) {
 			fmt.Printf("policy accept=%d\n", b)
 		}
 		for i := 0; i < nops; i++ {
-			switch r.Pick(24, 26, 16, 10, 10, 3) {
+			switch r.Pick(24, 26, 16, 10, 10, 3, 9) {
+			case 6:
+				if r.Chance(25) {
+					fmt.Printf("slow all=%d\n", r.Intn(2))
+				} else {
+					fmt.Printf("slow d=%d\n", r.Intn(est+1))
+				}
 			case 0:
 				h := 1 + r.Intn(3)
 				if r.Chance(70) || h == lastH {
